@@ -48,14 +48,18 @@ JudgeRoute ==
     ELSE IF Ev.ok /\ ~ConflictFree(RoutesWith(Ev.tmpl, Ev.id, Kind, Ev.sfx)) THEN "H:conflict"
     ELSE "ok"
 
-Step ==
-    /\ l >= 1 /\ l <= Len(T.ev) /\ verdict = "ok"
-    /\ verdict' = (CASE Ev.op = "req" -> JudgeReq [] Ev.op = "route" -> JudgeRoute [] OTHER -> "ok")
+(* what an event does to the dispatch tables (assembly events as logged; requests change nothing) *)
+Apply ==
     /\ routes'  = (IF Ev.op = "route" /\ Ev.ok THEN RoutesWith(Ev.tmpl, Ev.id, Kind, Ev.sfx) ELSE routes)
     /\ sinks'   = (IF Ev.op = "sink" THEN Put(sinks, [id |-> Ev.id, pat |-> Ev.pat]) ELSE sinks)
     /\ statics' = (IF Ev.op = "static" THEN Put(statics, [id |-> Ev.id, prefix |-> Ev.prefix, fb |-> Ev.fb]) ELSE statics)
-    /\ n' = (IF Ev.op = "req" THEN n ELSE Ev.id)
+    /\ n' = (IF Ev.op \in {"route", "sink", "static"} THEN Ev.id ELSE n)
     /\ l' = l + 1 /\ UNCHANGED <<tid, sbs, last>>
+
+Step ==
+    /\ l >= 1 /\ l <= Len(T.ev) /\ verdict = "ok"
+    /\ verdict' = (CASE Ev.op = "req" -> JudgeReq [] Ev.op = "route" -> JudgeRoute [] OTHER -> "ok")
+    /\ Apply
 
 Done ==
     /\ l >= 1 /\ (l > Len(T.ev) \/ verdict # "ok")
